@@ -11,7 +11,7 @@ usage: seedcheck.py <name> <outdir> <demo-file> <test-regex> <pkg-dir> <PROP> [<
 """
 import json, os, shutil, subprocess, sys, time
 
-ENV = dict(os.environ, GOFLAGS="-mod=mod", GOPROXY="off", GOSUMDB="off", GOTOOLCHAIN="local")
+ENV = dict(os.environ, GOFLAGS="-mod=mod", GOPROXY="off", GOSUMDB="off", GOTOOLCHAIN="local", VERIF_NO_EVIDENCE="1")
 
 
 def sh(cmd, cwd=None, timeout=3600):
